@@ -104,7 +104,16 @@ package commentparser
 //@ // StartLine <= EndLine, and appear in order of position
 //@ spec okC(c *Comment, s string) bool = c != nil && 1 <= c.StartLine && c.StartLine <= c.EndLine && c.EndLine <= 1 + nl(s, len(s))
 //@ spec okCs(cs Comments, s string, line int) bool = (forall k int :: 0 <= k && k < len(cs) ==> okC(cs[k], s)) && (forall k int :: 0 <= k && k + 1 < len(cs) ==> cs[k].EndLine <= cs[k+1].StartLine) && (len(cs) > 0 ==> cs[len(cs)-1].EndLine <= line)
+//@ // endTested: the offset at which the end delimiter of the multi-line comment
+//@ // being read was last looked for and not found. A rune may be consumed as
+//@ // comment text only at such an offset: no end delimiter is passed over (in
+//@ // particular the one that directly follows the start delimiter or a nested
+//@ // end delimiter).
+//@ ghostvar endTested int
 //@ func (*input).lex
+//@   ghostset endTested = -1 after multiLineComment
+//@   ghostset endTested = ite(result, -1, i.offset) after match#5
+//@   callreq readRune#5 requires endTested == i.offset
 //@   uses nl-mono nl-def
 //@   requires wfIn(i) && i.comments == nil
 //@   ensures wfIn(i) && okCs(i.comments, i.s, i.pos.line)
